@@ -55,30 +55,45 @@ class Tok(object):
 
 
 class StubConfig(object):
-    """Keyed stand-in for configparser.ConfigParser behind InputStore: no file
-    syntax, no interpolation, no iteration (any other access raises).  Models
-    the [DEFAULT] section the way configparser does: has_option(section, key)
-    is false while the section does not exist, and true for a key that only
-    [DEFAULT] provides once the section exists."""
+    """Stand-in for the configparser.ConfigParser behind InputStore.  What the
+    *file held initially* is symbolic (presence bits, [DEFAULT] bits, opaque
+    value tokens); everything the code writes goes into a real ConfigParser
+    (so any ConfigParser API the code uses for writing behaves as the real
+    one), and reads look there first."""
 
     def __init__(self, world, preset=None):
+        import configparser
         self.world = world
-        self.set_values = dict(preset or {})
-        self._sections = set(n.split('.')[0] for n in self.set_values)
+        self.real = configparser.ConfigParser(interpolation=None)
+        self.tokens = {}
+        for name, value in (preset or {}).items():
+            sec, key = name.split('.', 1)
+            if not self.real.has_section(sec):
+                self.real.add_section(sec)
+            self._store(sec, key, value)
+
+    def _store(self, section, key, value):
+        # tokens are opaque objects: keep them aside, store a marker text
+        name = '%s.%s' % (section, key)
+        if isinstance(value, str):
+            self.real.set(section, key, value)
+            self.tokens.pop(name, None)
+        else:
+            self.real.set(section, key, '<token>')
+            self.tokens[name] = value
 
     def _present(self, name):
         return tm.var('present:' + name, 'B')
 
     def _section_exists(self, section):
-        if section in self._sections:
+        if self.real.has_section(section):
             return tm.TRUE
-        # the file has the section iff it holds at least one of its keys
         keys = [n for n in self.world.input_names if n.split('.')[0] == section]
         return tm.or_(*[self._present(n) for n in keys]) if keys else tm.FALSE
 
     def has_option(self, section, key):
         name = '%s.%s' % (section, key)
-        if name in self.set_values:
+        if self.real.has_section(section) and key in self.real._sections[section]:
             return True
         t = self._present(name)
         if self.world.defaults:
@@ -87,35 +102,50 @@ class StubConfig(object):
 
     def get(self, section, key):
         name = '%s.%s' % (section, key)
-        if name in self.set_values:
-            return self.set_values[name]
+        if self.real.has_section(section) and key in self.real._sections[section]:
+            return self.tokens.get(name, self.real.get(section, key)) if name in self.tokens else self.real.get(section, key)
         if self.world.defaults and not symx.cur().decide(self._present(name)):
             return Tok('DEFAULT.' + key)
         return Tok(name)
 
     def sections(self):
-        out = list(self._sections)
+        out = list(self.real.sections())
         if not self.world.defaults:
             return out          # whether the section already exists is immaterial without [DEFAULT]
         for sec in sorted(set(n.split('.')[0] for n in self.world.input_names)):
-            if sec not in self._sections and symx.cur().decide(self._section_exists(sec)):
+            if sec not in out and symx.cur().decide(self._section_exists(sec)):
                 out.append(sec)
         return out
 
     def add_section(self, section):
-        self._sections.add(section)
+        if not self.real.has_section(section):
+            self.real.add_section(section)
 
     def set(self, section, key, value):
         name = '%s.%s' % (section, key)
         self.world.log.append(('store_set', name))
-        self.set_values[name] = value
-        self._sections.add(section)
+        if not self.real.has_section(section):
+            # configparser raises NoSectionError here; the file-provided section may exist symbolically
+            if self.world.defaults and not symx.cur().decide(self._section_exists(section)):
+                import configparser
+                raise configparser.NoSectionError(section)
+            self.real.add_section(section)
+        self._store(section, key, value)
 
-    def snapshot(self):
-        c = StubConfig(self.world)
-        c.set_values = dict(self.set_values)
-        c._sections = set(self._sections)
-        return c
+    @property
+    def set_values(self):
+        out = {}
+        for sec in self.real.sections():
+            for key in self.real._sections[sec]:
+                name = '%s.%s' % (sec, key)
+                out[name] = self.tokens.get(name, self.real.get(sec, key))
+        return out
+
+    def __getattr__(self, name):
+        # any other ConfigParser API: the real object (concrete part of the store)
+        if name in ('real', 'world', 'tokens'):
+            raise AttributeError(name)
+        return getattr(self.real, name)
 
 
 class World(object):
@@ -147,6 +177,7 @@ class World(object):
             self.targets.append('fb%s.o0' % inst)      # optional line of the other form
         if allow_abort_targets:
             self.targets.append('nope.x')              # unsupported form -> NotImplementedError
+            self.targets.append('fa.zz')               # unknown line of a known form -> the solver's assertion
         self.input_names = ['fa.i%d' % j for j in range(ninputs)]
         if second_form:
             self.input_names.append('fb%s.j0' % (':0' if instanced else ''))
